@@ -15,6 +15,8 @@ from ndn.app_support.segment_fetcher import segment_fetcher
 from ndn.encoding import make_data, MetaInfo
 from ndn.security import KeychainDigest, DigestSha256Signer
 
+LEVEL = 'fault_enumeration'
+
 RULE = ('object sizes 1..8 segments (incl. empty contents) and unsegmented objects, with/without a version component, every '
         'discovery answer (segment k / unsegmented), loss patterns 0..retry+1 per request relative to retry_times in {1,2,3}, '
         'final-block marker on every segment or on the last only, Nack / validation failure injected at each position; '
